@@ -3,6 +3,7 @@ package ingest
 import (
 	"fmt"
 	"io"
+	"strconv"
 
 	"diagonal.works/b6"
 	"github.com/golang/geo/s2"
@@ -14,7 +15,11 @@ type LatLngYAML struct {
 }
 
 func (f LatLngYAML) MarshalYAML() (interface{}, error) {
-	return fmt.Sprintf("%f, %f", f.LatLng.Lat.Degrees(), f.LatLng.Lng.Degrees()), nil
+	// The shortest text that reads back as the same value: %f keeps only six
+	// decimals, which moves points by up to 5cm.
+	lat := strconv.FormatFloat(f.LatLng.Lat.Degrees(), 'f', -1, 64)
+	lng := strconv.FormatFloat(f.LatLng.Lng.Degrees(), 'f', -1, 64)
+	return lat + ", " + lng, nil
 }
 
 func (f *LatLngYAML) UnmarshalYAML(unmarshal func(interface{}) error) error {
